@@ -41,7 +41,7 @@ type (
 // SchedHooks is installed by package sched.
 type SchedHooks struct {
 	Lock     func(m any, try func() bool) // blocks until granted; try acquires the real lock
-	Unlock   func(m any)
+	Unlock   func(m any) bool             // false: skip the real unlock (aborted execution unwinding)
 	Yield    func(what string)
 	Go       func(f func())
 	CondWait func(c *Cond)
@@ -209,8 +209,9 @@ func (m *Mutex) Unlock() {
 			panic("vsync: unlock of unlocked mutex")
 		}
 	case Sched:
-		m.real.Unlock()
-		Hooks.Unlock(m)
+		if Hooks.Unlock(m) {
+			m.real.Unlock()
+		}
 	}
 }
 
@@ -341,8 +342,9 @@ func (rw *RWMutex) Unlock() {
 		rw.broadcastLocked()
 		reg.Unlock()
 	case Sched:
-		rw.real.Unlock()
-		Hooks.Unlock(rw)
+		if Hooks.Unlock(rw) {
+			rw.real.Unlock()
+		}
 	}
 }
 
@@ -373,8 +375,9 @@ func (rw *RWMutex) RUnlock() {
 		}
 		reg.Unlock()
 	case Sched:
-		rw.real.RUnlock()
-		Hooks.Unlock(rw)
+		if Hooks.Unlock(rw) {
+			rw.real.RUnlock()
+		}
 	}
 }
 
